@@ -437,7 +437,12 @@ def run(ctx) -> None:
     es = Enumerator(ecfg).run(P.find_method("InotifyEmitter", "stop"), selfcls="InotifyEmitter")
     okc = True
     for p in es:
-        has = p.conds().get("self._inotify")
+        c_ = p.conds()
+        has = c_.get("self._inotify")  # "it has one": the field is truthy / is not None (a thread object is never falsy)
+        if has is None and c_.get("self._inotify is None") is not None:
+            has = not c_["self._inotify is None"]
+        if has is None and c_.get("self._inotify is not None") is not None:
+            has = c_["self._inotify is not None"]
         closes = [e for e in p.evs if e.kind == "call" and e.extra.get("func") == "self._inotify.close"]
         if has is True and len(closes) != 1:
             okc = False
